@@ -211,6 +211,21 @@ pub fn run_batch_exe(
     workers: u64,
     hashes: bool,
 ) -> Result<Agg, String> {
+    run_batch_env(exe, prop, seed, from, to, workers, hashes, &[])
+}
+
+/// Same, with extra environment variables for the workers (lane K preloads the clock seam).
+#[allow(clippy::too_many_arguments)]
+pub fn run_batch_env(
+    exe: &std::path::Path,
+    prop: &str,
+    seed: u64,
+    from: u64,
+    to: u64,
+    workers: u64,
+    hashes: bool,
+    envs: &[(String, String)],
+) -> Result<Agg, String> {
     let n = to - from;
     let workers = workers.max(1).min(n.max(1));
     let chunk = (n + workers - 1) / workers;
@@ -233,6 +248,9 @@ pub fn run_batch_exe(
             .arg(b.to_string());
         if hashes {
             cmd.arg("--hashes");
+        }
+        for (k, v) in envs {
+            cmd.env(k, v);
         }
         cmd.stdout(Stdio::piped()).stderr(Stdio::piped()).stdin(Stdio::null());
         let mut child = cmd.spawn().map_err(|e| format!("spawn worker: {}", e))?;
@@ -399,6 +417,36 @@ pub fn run_batch_exe(
         merge(&mut total, a);
     }
     Ok(total)
+}
+
+pub const CLOCK_SKEW_SECS: i64 = 400 * 86400 + 12345;
+
+fn clock_envs() -> Option<Vec<(String, String)>> {
+    let so = env!("DNSSIM_CLOCKSKEW_SO");
+    if so.is_empty() || !std::path::Path::new(so).exists() {
+        return None;
+    }
+    Some(vec![
+        ("LD_PRELOAD".to_string(), so.to_string()),
+        ("DNSSIM_CLOCK_SKEW".to_string(), CLOCK_SKEW_SECS.to_string()),
+    ])
+}
+
+/// Lane K: the same runs under the real wall clock and under a wall clock shifted by 400 days.
+/// Returns (runs compared, first run whose event log differs).
+pub fn clock_slice(prop: &str, seed: u64, from: u64, to: u64, workers: u64) -> Result<(u64, Option<u64>), String> {
+    let envs = match clock_envs() {
+        Some(e) => e,
+        None => return Err("clock seam not built".into()),
+    };
+    let exe = std::env::current_exe().map_err(|e| e.to_string())?;
+    let a = run_batch_env(&exe, prop, seed, from, to, workers, true, &[])?;
+    let b = run_batch_env(&exe, prop, seed, from, to, workers, true, &envs)?;
+    if !a.deaths.is_empty() || !b.deaths.is_empty() {
+        return Err("a worker died during the clock slice".into());
+    }
+    let bad = a.hashes.iter().find(|(r, h)| b.hashes.get(r) != Some(h)).map(|(r, _)| *r);
+    Ok((a.hashes.len() as u64, bad))
 }
 
 /// Event-log hash of `run` when executed after runs from..run in one process, and alone.
@@ -572,6 +620,22 @@ pub fn replay_value(prop: &str, lane: &str, scenario: &Value, verbose: bool) -> 
                     step: 0,
                 })),
                 Ok(_) => Ok(None),
+                Err(e) => Err(e),
+            }
+        }
+        "K" => {
+            let seed = scenario["seed"].as_u64().unwrap_or(1);
+            let run = scenario["run"].as_u64().unwrap_or(0);
+            match clock_slice(prop, seed, run, run + 1, 1) {
+                Ok((_, Some(r))) => Ok(Some(crate::exec::Violation {
+                    props: vec![prop_static(prop)],
+                    clause: "result-depends-on-wall-clock".into(),
+                    op: "run".into(),
+                    key: String::new(),
+                    detail: format!("run {} logs differently when the wall clock is shifted by {} s", r, CLOCK_SKEW_SECS),
+                    step: 0,
+                })),
+                Ok((_, None)) => Ok(None),
                 Err(e) => Err(e),
             }
         }
@@ -968,6 +1032,44 @@ pub fn cmd_check(prop: &str, tier: &str, seed: u64) -> i32 {
             }
         }
     }
+    // ---- lane K (C17): clock skew. The library reads no clock; results that change when the
+    // wall clock jumps by 400 days depend on something other than the arguments.
+    let mut clock_ev = json!({"used": false});
+    if prop == "C17" && exit == 0 {
+        let kn: u64 = if tier == "quick" { 3000 } else { 100_000 }.min(runs);
+        match clock_slice(prop, seed, 0, kn, workers) {
+            Ok((n, None)) => {
+                clock_ev = json!({"used": true, "runs_compared": n, "skew_seconds": CLOCK_SKEW_SECS, "differences": 0,
+                    "what": "the same runs executed under the real wall clock and with CLOCK_REALTIME/gettimeofday/time shifted through a preloaded seam; event logs must be identical"});
+            }
+            Ok((n, Some(r))) => {
+                clock_ev = json!({"used": true, "runs_compared": n, "skew_seconds": CLOCK_SKEW_SECS, "differences": 1});
+                let v = crate::exec::Violation {
+                    props: vec!["C17"],
+                    clause: "result-depends-on-wall-clock".into(),
+                    op: "run".into(),
+                    key: String::new(),
+                    detail: format!(
+                        "run {} produces a different event log when the wall clock is shifted by {} s: some result depends on the time of the call, not only on its arguments",
+                        r, CLOCK_SKEW_SECS
+                    ),
+                    step: 0,
+                };
+                let doc = json!({"run": r, "seed": seed, "lane": "K", "violation": lanes::violation_json(&v),
+                                 "scenario": {"seed": seed, "run": r, "skew_seconds": CLOCK_SKEW_SECS}});
+                if let Ok(path) = write_replay(prop, &doc, None, 0) {
+                    println!("violation: {}", v.detail);
+                    println!("VIOLATION property={} replay={}", prop, path);
+                    replay_path = path;
+                    violations_reported += 1;
+                    exit = 1;
+                }
+            }
+            Err(e) => {
+                clock_ev = json!({"used": false, "note": e});
+            }
+        }
+    }
     // C17 only: the same run giving a different event log depending on which runs the same
     // process executed before it is, by definition, a result that depends on earlier calls.
     if prop == "C17" && det_mismatch > 0 && exit == 0 {
@@ -1076,6 +1178,7 @@ pub fn cmd_check(prop: &str, tier: &str, seed: u64) -> i32 {
             "determinism_selfcheck": {"runs": dn, "layouts": [1, workers.max(2)], "mismatches": det_mismatch},
             "known_findings_hit": known,
             "miri_lane": miri_ev,
+            "clock_skew_lane": clock_ev,
             "violation_signatures": agg.violation_sigs,
             "replay": replay_path,
             "components": components_for(prop),
